@@ -273,7 +273,7 @@ def rule_R04_4(ctx):
     # producers of ScopeStack values in the evaluator
     prods = set()
     for f in prog.hand_fns():
-        if f.from_expansion or f.module.startswith("eval::scope"):
+        if f.from_expansion or f.module.startswith(__import__("anchors").scope_module(prog)):
             continue
         for c in f.calls():
             if c.is_ptr:
@@ -298,7 +298,7 @@ def rule_R04_4(ctx):
     else:
         r.fail("scope-chain producers=%s" % ",".join(sorted(extra)),
                "scope chains are produced by %s" % sorted(extra))
-    roots = [c for c in prog.callers_of("eval::scope::ScopeStack::new") if c.fn.module != "eval::scope"]
+    roots = [c for c in prog.callers_of("eval::scope::ScopeStack::new") if not c.fn.module.startswith(__import__("anchors").scope_module(prog))]
     r.inst("ScopeStack::new (empty root) called from %s" % sorted(c.fn.path for c in roots))
     if all(c.fn.module == "" for c in roots):
         r.ok()
